@@ -1283,12 +1283,15 @@ def run(ck):
         return 2 + k + int.from_bytes(data[2:2 + k], "big")
 
     def loader_answers(data):
-        """the loader's CONTENT answers, obtained directly: length of the leading prefix cryptography loads as a certificate (0 = none), PEM loadable?"""
-        L = 0
+        """the loader's CONTENT answers, obtained directly: (P, verdict of cryptography on data[:P]) for P = the length the header declares
+        (0 / fail when there is no such prefix), PEM loadable?"""
         L0 = der_declared_len(data)
-        if L0 is not None and L0 <= len(data) and pyres(cx509.load_der_x509_certificate, data[:L0])[0] == "ok":
-            L = L0
-        return L, pyres(cx509.load_pem_x509_certificate, data)[0] == "ok"
+        P, cls = 0, "fail"
+        if L0 is not None and 0 < L0 <= len(data):
+            P, cls = L0, real_load_class(data[:L0]).split(":")[0]
+            if cls not in ("ok", "extra", "fail"):
+                cls = "fail"
+        return P, cls, pyres(cx509.load_pem_x509_certificate, data)[0] == "ok"
 
     def real_load_class(data):
         try:
@@ -1320,10 +1323,10 @@ def run(ck):
             s3.note(inp, cls="cert-parse/" + vname.rstrip("0123456789") + ("/ends-in-zero" if zero_end else ""))
             r = pyres(Certificate.parse, data)
             realc = "ok:cert" if r[0] == "ok" else r[0]
-            L, pem_ok = loader_answers(data)
-            reqs.append((inp + (data,), f"cert_parse {hexs(data)} {L} {int(pem_ok)}", realc))
+            P, pcls, pem_ok = loader_answers(data)
+            reqs.append((inp + (data,), f"cert_parse {hexs(data)} {P} {pcls} {int(pem_ok)}", realc))
             if data:
-                reqs.append((("load_der_x509_certificate", vname, tag, data), f"der_load {hexs(data)} {L}", real_load_class(data)))
+                reqs.append((("load_der_x509_certificate", vname, tag, data), f"der_load {hexs(data)} {P} {pcls}", real_load_class(data)))
             if vname in ("der", "pem", "nxp") or vname.startswith("zeros") and vname[5:].isdigit():
                 ok = r[0] == "ok" and r[1].cert.public_bytes(cser.Encoding.DER) == der
                 s3.expect(ok, inp + (data,), "the certificate does not survive export -> parse", r)
